@@ -1,0 +1,32 @@
+"""Verification hooks (no-ops unless the environment variable OVLD_VERIF=1).
+
+`order(site, xs)` lets a test harness choose the iteration order at the
+library's set-iteration sites; `point(name, **fields)` marks the linearisation
+points of a build and of a resolution.  With the guard off both do nothing.
+"""
+
+import os
+
+ENABLED = os.environ.get("OVLD_VERIF") == "1"
+
+_order = None
+_point = None
+
+
+def install(order=None, point=None):
+    """Install harness callbacks (ignored unless OVLD_VERIF=1)."""
+    global _order, _point
+    if ENABLED:
+        _order = order
+        _point = point
+
+
+def order(site, xs):
+    if _order is None:
+        return xs
+    return _order(site, xs)
+
+
+def point(name, **fields):
+    if _point is not None:
+        _point(name, fields)
